@@ -191,7 +191,7 @@ MANIFEST_TEXT = {
         "text": "Kernel-checked theorem C20 (lean/Indi/Properties/C20.lean): for every class table passing the decidable well-formedness check, and every two constructed "
                 "messages of any size, the model of __eq__/to_dict returns True exactly when the wire views (kind, all attributes, text, complete ordered children) are equal; "
                 "instance obligation on the table regenerated from /repo discharged by decide +kernel on every run. The model is tied to base.py by a differential "
-                "correspondence over all kinds x all single-point perturbations (exhaustive for short child lists), with the Lean spec (view equality) as oracle on the real ==.",
+                "correspondence over all kinds x all single-point perturbations (exhaustive for short child lists; long values differing late, at equal length), with the Lean spec (view equality) as oracle on the real ==.",
         "note": "Trusted: Lean kernel + propext/Classical.choice/Quot.sound; tools/extract.py (constructor tables probed from live classes); harness.msg_view (object -> wire view); "
                 "the theorem speaks about messages built through registered constructors (Msg.Built).",
         "technique": "Lean 4 theorem (to_dict injectivity, induction over children) + regenerated class table + differential correspondence",
@@ -211,9 +211,11 @@ MANIFEST_TEXT = {
                 "delivers exactly Spec.expected), C04_devices (a client-originated message reaches device i iff i is a registered device, not the sender, accepting the name), "
                 "C04_device_order, deliveries_nodup (exactly once under the no-double-registration precondition), C04_not_to_sender, C04_clients_only_if_fromDevice, and the table obligations "
                 "that getProperties is the only relayed client kind (decide +kernel on the regenerated class table). Correspondence: real Router with recording Driver/Proxy endpoints over "
-                "every registration state of the bounded universe and random long histories; oracle = Spec.expectedTrace computed in Lean from the history alone.",
+                "every registration state of the bounded universe and random long histories, with the library's own SnoopingClient among the endpoints, and endpoints that send from inside their handler; "
+                "oracle = Spec.expectedTrace / expectedTraceR computed in Lean from the history alone.",
         "note": "Trusted: Lean kernel + standard axioms; class flags from tools/extract.py; Driver.accepts modelled as `no name or same name`, catch-all as Proxy.accepts (tied by correspondence only); "
-                "re-entrant delivery (a driver answering inside the fan-out) is not part of this model.",
+                "re-entrant delivery (an endpoint sending from inside its handler, which every real driver does) is modelled separately (Model/RtrR.lean) with its own theorems (Properties/C05b.lean) and suite; "
+                "Driver.accepts is also regenerated from the source and proved equal to the model's (Properties/Decisions.lean: driverAccepts_agrees).",
         "technique": "Lean 4 refinement proof (router state vs history function) + regenerated class flags + differential correspondence",
     },
     "C05": {
@@ -222,7 +224,10 @@ MANIFEST_TEXT = {
                 "(independence between clients and between devices), C05_enable_takes_effect, C05_reregister_resets, clients_are_registered, deliveries_nodup. Correspondence over all policy "
                 "assignments of the bounded universe x every device-originated kind, unregister/re-register, and random long histories; oracle = Spec.expectedTrace in Lean.",
         "note": "Trusted: Lean kernel + standard axioms; class flags and default policy from tools/extract.py; recording endpoints; the delivery condition itself is hand-modelled (deliverCond) "
-                "and proved equal to the specification table `allows` for all 6 cases; its tie to router.py is the correspondence.",
+                "and proved equal to the specification table `allows` for all 6 cases; the condition in router.py and the class test behind is_blob are ALSO translated from the source on every run "
+                "(Generated/Decisions.lean) and proved equal to the model's on the whole domain (routerDeliver_agrees, routerIsBlob_agrees): a mutated operator or constant breaks a named theorem. "
+                "Re-entrant delivery: Properties/C05b.lean (procR_no_reactions, procR_deliveries_allowed, procR_isBlob_own, traceR_deliveries_allowed: whatever the nesting, every client delivery was decided "
+                "with the delivered message's own BLOB-ness and a policy that allows it).",
         "technique": "Lean 4 refinement proof (blob_routing vs history function) + differential correspondence",
     },
     "C09": {
@@ -231,7 +236,8 @@ MANIFEST_TEXT = {
                 "assignAt_anyOfMany_frame / C09_any_of_many (only the named switch changes), C09_on_stays_on; lifted to client writes naming several switches, selected_value(s) and whole "
                 "histories by induction (run_inv). The model (Switch.assignAt = apply_rule + store + publish) is tied to vectors.py/elements.py by an exhaustive transition-by-transition "
                 "correspondence on real Driver instances; oracle = Spec.Switch.holds evaluated in Lean on the observed before/snapshots/after.",
-        "note": "Trusted: Lean kernel + standard axioms; the correspondence harness; only enabled vectors publish (disabled properties are C07's subject).",
+        "note": "The oracle also judges every state a Write/Change handler can observe during an operation, and writes refused by a vetoing Write handler (nothing may change). "
+                "Trusted: Lean kernel + standard axioms; the correspondence harness; only enabled vectors publish (disabled properties are C07's subject).",
         "technique": "Lean 4 transition invariants + induction over operation sequences + exhaustive transition correspondence",
     },
     "C02": {
@@ -282,7 +288,9 @@ MANIFEST_TEXT = {
                 "(message_from_client raises nothing), C12_frame (only elements validly named by the message's children - plus switch siblings under the rule - change; no flag, state or other "
                 "property changes), step_wf (every operation preserves well-formedness), C12_session (so after any hostile prefix later messages are handled normally). Router part: the "
                 "model of process_message is total (C04/C05). Correspondence: real Driver instances against the systematic fault catalogue; oracle c12Holds in Lean on observed before/after.",
-        "note": "Partial: the connection level (TCP/TTY handlers stay registered and open) is explored by C18's component, not proved; user handler bodies are not modelled. "
+        "note": "Connection level: Model/Conn.lean composes framing (Buf), the character-level parser (Xml), from_xml and the router with the handler's control flow; Properties/C18b.lean proves "
+                "C12_any_bytes_keep_serving (ANY bytes on a connection - complete, partial, hostile or junk elements - leave it served and registered as long as no device raises), serving_stays, "
+                "retained_bounded; tied by the conn suite (real TCP/TTY handlers, hostile traffic incl. odd handshake versions and BLOB formats). User handler bodies are not modelled. "
                 "Trusted: Lean kernel + standard axioms; harness.",
         "technique": "Lean 4 invariant (well-formedness) + totality/frame theorems over all messages + fault-catalogue correspondence",
     },
@@ -291,7 +299,9 @@ MANIFEST_TEXT = {
                 "produces exactly the trace of the contract Spec.Dev.writeContract (each Write handler once with the requested value - plain ones seeing the old value, coroutines as tasks; "
                 "veto => nothing stored/published; else stored, one update iff the property is enabled, Change handlers once with (old,new) iff changed, numerically for numbers, by content "
                 "for BLOBs). Correspondence on real drivers with instrumented handlers on an asyncio loop; oracle c14Holds in Lean.",
-        "note": "Partial: task start order is asyncio's FIFO (observed, not proved); Read handlers are modelled by their refresh effect. Trusted: Lean kernel + standard axioms; harness.",
+        "note": "Handlers that assign from inside a handler are judged per assignment by Spec.Dev.nestedHolds (oracle only: the driver model has no re-entrant handlers); handlers declared with @on on a "
+                "driver class instantiated several times are judged by call counts. Partial: task start order is asyncio's FIFO (observed, not proved); Read handlers are modelled by their refresh effect. "
+                "Trusted: Lean kernel + standard axioms; harness.",
         "technique": "Lean 4 trace-equality theorem against a contract generator + instrumented-handler correspondence",
     },
     "C15": {
@@ -306,7 +316,9 @@ MANIFEST_TEXT = {
                 "exactly for the events matching its four filters while registered), C16_changed_only, C16_chain + C16_old_is_previous_new (for every element the last announced value is the "
                 "current value, each update event's old value is the previously announced one: the unbroken chain), for all streams and registration schedules. Correspondence with bound-method, "
                 "coroutine and raising callbacks; oracles c16Holds (registry computed by the spec from the onevent/rmonevent history) and chainInv on the catch-all log, in Lean.",
-        "note": "Removing a callback from inside a callback is outside the quantifier (DESIGN section 9). Trusted: kernel, harness.",
+        "note": "rmonevent from inside a callback: removing a LATER-registered callback while an event is in flight is judged (Spec.Cli.inflightHolds: it never sees that event); removing an earlier or "
+                "the running one is outside the quantifier (DESIGN section 9). The filter expression of accepts_event is regenerated from the source and proved equal to the model's "
+                "(callbackAccepts_agrees). Trusted: kernel, harness.",
         "technique": "Lean 4 invariant over event logs + filter semantics theorems + differential correspondence",
     },
     "C07": {
@@ -314,7 +326,8 @@ MANIFEST_TEXT = {
                 "definitions published are exactly one per enabled, wanted property in definition order - listing the enabled elements, current values, numbers as the format renders them, "
                 "and the metadata - and nothing else but delProperty notices for disabled properties), C07_emitted_valid (every message emitted by ANY operation is read back unchanged up to "
                 "normalisation by the model of the library's parser over the regenerated class table; number text validity is proved, not assumed). Correspondence on real drivers; oracles "
-                "c07Holds in Lean and the real parser's re-read compared by norm equality in Lean.",
+                "c07Holds in Lean, the real parser's re-read compared by norm equality in Lean, and Spec.Dev.flagsHold: which groups and properties are enabled is what the driver's code last assigned - "
+                "a function of the operation history alone.",
         "note": "C07_emitted_valid carries two extra hypotheses found by the proof attempt: stored and incoming BLOB values have a format string (values.BLOB(b, None) makes the driver emit a "
                 "oneBLOB its own parser rejects; recorded in DESIGN.md as usage outside the property). The XML character level is C03's subject. Trusted: kernel, translator, harness.",
         "technique": "Lean 4 theorems over the driver model and the regenerated class table + differential correspondence with re-parse by the real library",
@@ -328,7 +341,8 @@ MANIFEST_TEXT = {
                 "counterexample theorem C01_needs_*): well-formed drivers, distinct device names, distinct enabled element names per property, BLOB values carry a format. "
                 "The model is tied to the code as a refinement check: the real deployment (drivers, Router, server TCP handlers, fragmenting pipes, client handlers, Client with two connections, "
                 "SnoopingClient; drivers optionally built through inheritance chains) is driven through random histories and EVERY observed step must satisfy Sys.nextOk from the observed state "
-                "and end in mirrors that Spec.Sys.synced - the theorem's very predicate - accepts.",
+                "and end in mirrors that Spec.Sys.synced - the theorem's very predicate - accepts. Schedules: slow peers (drain() blocks while the peer has unread bytes, later messages queue on the sender "
+                "lock) and bursts of operations at every phase of the hand-over must still converge (oracle only).",
         "note": "Operations are separated by quiescence in model and harness; without it a BLOB property's definition can be overtaken by a later update on the BLOB connection (known finding "
                 "two-connection-reordering, exhibited by the gen_c01_lag suite). A peer without BLOBs is exempt from BLOB updates (protocol). Element-level enabling publishes nothing and is "
                 "out of scope (as in the property). Trusted: kernel, translator, pipes/quiescence harness, encoders of live drivers and mirrors.",
@@ -342,7 +356,7 @@ MANIFEST_TEXT = {
                 "necessary by a kernel-checked counterexample C06_needs_*): distinct property names, the property exists, is enabled and writable, each name denotes exactly one enabled element, "
                 "no vetoing Write handler, no refreshing Read handler, values in the element's domain. Tie to the code: real Client.submit -> serializer -> server handler -> framing -> router "
                 "-> driver on generated multi-device deployments; before/after snapshots of every driver judged by c06Holds (the theorem's predicate) evaluated in Lean, the step by Sys.nextOk.",
-        "note": "Switch siblings are free under the rule (C09 decides them). The oracle compares text up to C03's normalisation. Trusted: kernel, translator, harness.",
+        "note": "Values assigned but not yet submitted must survive whatever arrives before submit() (gen_c06_pending). Switch siblings are free under the rule (C09 decides them). The oracle compares text up to C03's normalisation. Trusted: kernel, translator, harness.",
         "technique": "Lean 4 theorem over the deployment model (exact effect of a client write through serializer, parser and driver) + refinement check of the real deployment with the theorem's predicate as oracle",
     },
     "C08": {
@@ -352,7 +366,8 @@ MANIFEST_TEXT = {
                 "every peer that enabled BLOBs holds identical bytes and format and every other peer holds exactly what it held before (Spec.Sys.c08Holds). Hypotheses worldOk08 + address names "
                 "a BLOB element, each shown necessary by a kernel-checked counterexample. Termination of Buffer.process is a theorem by construction (C02/C11: processLoop is total). "
                 "Tie to the code: model codec vs binascii exhaustively for short inputs in both directions; the real deployment for every length across the read size and the threshold, three "
-                "fragmentations, three client kinds, both directions, judged by c08Holds / c06Holds, with a watchdog for hangs and follow-up traffic that must arrive.",
+                "fragmentations, three client kinds, both directions, judged by c08Holds / c06Holds, with a watchdog for hangs and follow-up traffic that must arrive; 70-200 kB frames followed at once by more "
+                "traffic to a slow peer; a driver refilling one BLOB object; message sizes named by integer constants in the framing/transport source (threshold disabled).",
         "note": "Known finding (known_findings.txt, key element-over-threshold): an element longer than the 2048-character junk-recovery threshold on a thresholded connection (any upload above "
                 "about 1.5 kB; BLOBs to a client that enabled Also on its control connection) is cut by junk recovery - the threshold working as designed (C02 limits itself to it), contrary to "
                 "C08's 'regardless of payload size'; the model's transport delivers whole messages (framing is C02/C11's subject). Real sockets are not exercised. Trusted: kernel, harness.",
@@ -382,7 +397,7 @@ MANIFEST_TEXT = {
                 "no callback left after completion. C17_event_is_genuine / C17_timeout_is_genuine (never both, never neither). Correspondence: the real coroutine on a virtual-clock event loop "
                 "on every grid instant, all condition and event kinds, concurrent waits.",
         "note": "Partial: asyncio's Event/timer/task semantics are modelled (DESIGN.md section 5), tied by running the real coroutine on tools/vloop.py; independence of concurrent waits is "
-                "observed (each wait is compared with its own model run), not proved.",
+                "observed (each wait is compared with its own model run; the getProperties sent by several polling waits must be the merge of their own schedules), not proved.",
         "technique": "Lean 4 invariant over instants (operational model = declarative spec) + virtual-clock correspondence",
     },
     "C18": {
@@ -391,15 +406,20 @@ MANIFEST_TEXT = {
                 "(C18_others_stay, C18_others_policies, C18_others_served), a reconnecting peer starts from the default policy (C18_reconnect_default). That every way of ending (EOF, read error, "
                 "EOF inside a message, junk then EOF, exception while handling) funnels into close()+unregister is the handlers' control flow, tied by fault injection at every step of session "
                 "scripts on the real TCP and TTY handlers with fake streams; oracle: an ended connection is unregistered, closed, finished and silent at every later step.",
-        "note": "Partial: handler control flow and asyncio are not proved, only explored; real sockets are not exercised.",
-        "technique": "Lean 4 theorems on the router model (reusing the C05 refinement) + fault-injection correspondence on real handlers",
+        "note": "The handler's control flow is modelled (Model/Conn.lean: connect, bytes, EOF, read error, a device raising while a message is handled, device traffic - over the buffer, parser and "
+                "router models) and proved (Properties/C18b.lean): wf_step (a connection is served exactly while the router knows it: an invariant of every event), C18_ending_cleans (every way of ending "
+                "leaves it unserved, its writer closed, unknown to the router, without BLOB settings), C18_ended_is_final (nothing is delivered to it afterwards), serving_stays (nobody else is affected). "
+                "The conn suite sends the raw session to this model and compares state, closed writers, finished handlers and recipients after every step; faults include a peer resetting its receiving "
+                "side while the server still reads, and a write side failing for good followed by every read-side ending. Partial: asyncio itself (task scheduling) is not modelled here; real sockets are not exercised.",
+        "technique": "Lean 4 invariant and clean-up theorems over a transition-system model of server connections (handler control flow composed with framing, parsing and routing) + router theorems + fault-injection correspondence on real handlers",
     },
     "C19": {
         "text": "Kernel-checked theorem C19 (lean/Indi/Properties/C19.lean): for EVERY schedule - any interleaving of routing, task starts and I/O completions, including a connection that "
                 "never completes - output ++ pending = routed for the model of the lock-protected sender (TCP: write then drain; TTY: write job, flush job); hence the output is always a "
                 "prefix of the routed sequence (whole messages, in order, never interleaved: C19_prefix), everything once drained (C19_complete); routing never blocks (C19_route_never_blocks); "
                 "the lock hands over FIFO (C19_fifo_handover). Correspondence: exhaustive enumeration of short schedules and random longer ones on the real server TCP, TTY and client TCP "
-                "handlers with fake streams whose awaitables the explorer releases (oldest or newest pending).",
+                "handlers with fake streams whose awaitables the explorer releases (oldest or newest pending); after every schedule all outstanding I/O is completed and the oracle demands that everything "
+                "routed has left (completeness).",
         "note": "Partial: asyncio's task-start FIFO and Lock fairness are modelled (DESIGN.md section 5), tied by running the real handlers; the real thread pool and sockets are not exercised.",
         "technique": "Lean 4 invariant over all schedules of a small transition system + exhaustive schedule exploration of the real handlers",
     },
